@@ -133,8 +133,9 @@ def judge_twin_after_failure(base, fail_on):
     return None
 
 
-def judge_facade_twins(base, order):
-    """one PyKdebugParser prints X and X_nocancel with byte-identical START/END tuples (order: which comes first)."""
+def judge_facade_twins(base, order, path_len=0):
+    """one PyKdebugParser prints X and X_nocancel with byte-identical START/END tuples (order: which comes first); path_len > 0: a
+    looked-up path of that many characters sits in both windows."""
     import io
     from mc import build as B
     from pykdebugparser.pykdebugparser import PyKdebugParser
@@ -142,8 +143,13 @@ def judge_facade_twins(base, order):
     s, e = D.in_domain(base, 'se', (0x1111, 0x2222, 0x3333, 0x4444), (0, 0x55, 0x66, 0x77), 1)
     names = [base, nc] if order == 0 else [nc, base]
     recs = []
+    look = []
+    if path_len:
+        text = ('/' + 'directory' * 3) * (path_len // 28 + 1)
+        look = [(d, q) for d, q in B.lookup_chunks(0x90, text[:path_len])]
     for i, n in enumerate(names + names):
-        recs += [B.rec(10 * i + 1, s, 1, E.n2i(n) | 1), B.rec(10 * i + 2, e, 1, E.n2i(n) | 2)]
+        recs += [B.rec(100 * i + 1, s, 1, E.n2i(n) | 1)] + [B.rec(100 * i + 2 + j, tid=1, debugid=E.n2i('VFS_LOOKUP') | q, data=d) for j, (d, q) in enumerate(look)] + \
+                [B.rec(100 * i + 90, e, 1, E.n2i(n) | 2)]
     f = PyKdebugParser()
     f.color = False
     f.show_timestamp = False
@@ -151,6 +157,8 @@ def judge_facade_twins(base, order):
         lines = list(f.formatted_traces(io.BytesIO(B.v2([(1, 10, 'p')], 0, recs)), dict(E.codes())))
     except Exception as ex:
         return ('twin-facade-raised:' + type(ex).__name__, {'error': repr(ex)[:200]})
+    if path_len:
+        lines = [ln for ln in lines if not ln[34:].startswith('lookup(')]
     if len(lines) != 4:
         return ('twin-trace-count', {'lines': lines})
     by = {}
@@ -160,6 +168,12 @@ def judge_facade_twins(base, order):
         return ('twin-line-depends-on-what-was-printed-before', {'lines': lines})
     a, b = by[base][0], by[nc][0]
     body_a, body_b = a[34:], b[34:]
+    if path_len:
+        # texts this long are compared as they are: the twin's line is the base's line with the longer call name
+        short = base[4:].replace('sys_', '')
+        if body_b != body_a.replace(short + '(', short + '_nocancel(', 1):
+            return ('twin-renderings-differ-through-facade:long-path', {'path_len': path_len, 'base_len': len(body_a), 'nocancel_len': len(body_b), 'base_tail': body_a[-40:], 'nocancel_tail': body_b[-40:]})
+        return None
     ca, cb = split_call(body_a), split_call(body_b)
     if ca is None or cb is None:
         if body_a == body_b:
@@ -283,13 +297,28 @@ class C17(Check):
                     acc.case(nontrivial=True, transitions=8, outcome=h64((base, order)))
                     if bad:
                         acc.violation(f'{bad[0]}@{base}', {'kind': 'facade', 'base': base, 'order': order}, bad[1])
+                # looked-up paths of 180 .. 1023 characters (whatever the tool does with a long line, it does it to both twins alike)
+                for path_len in (180, 990, 995, 1000, 1010, 1023):
+                    bad = judge_facade_twins(base, 0, path_len)
+                    acc.case(nontrivial=True, transitions=8 + path_len // 16, outcome=h64((base, 'long', path_len)))
+                    if bad:
+                        acc.violation(f'{bad[0]}@{base}', {'kind': 'facade', 'base': base, 'order': 0, 'path_len': path_len}, bad[1])
+                        break
         else:
             h = registered()
             for base in desc[1]:
                 if base not in h:
                     continue
                 doms = word_domains(base, self.tier)
-                for s in itertools.product(*doms):
+                # plus: every enum-valued START word outside its table (the twins decode - or refuse - such a call ALIKE)
+                outside = []
+                en = {k: v for k, v in D.enums(base, 'se').items() if k[0] == 's'}
+                if en:
+                    o = [d[0] for d in doms]
+                    for k in en:
+                        o[int(k[1])] = 0x7fff3
+                    outside = [tuple(o)]
+                for s in list(itertools.product(*doms)) + outside:
                     for e in ENDS:
                         _, e2 = D.in_domain(base, 'se', s, e, 1)
                         for nlook in ((0, 2) if s == tuple(d[0] for d in doms) or self.tier == 'thorough' else (0,)):
@@ -316,7 +345,7 @@ class C17(Check):
             bad = judge_twin_after_failure(case['base'], case['fail_on'])
             return [(f"{bad[0]}@{case['base']}", bad[1])] if bad and bad != 'skipped' else []
         if case['kind'] == 'facade':
-            bad = judge_facade_twins(case['base'], case['order'])
+            bad = judge_facade_twins(case['base'], case['order'], case.get('path_len', 0))
             return [(f"{bad[0]}@{case['base']}", bad[1])] if bad else []
         if case['kind'] == 'twin':
             bad = judge_twin(case['base'], tuple(int(x, 16) for x in case['start']), tuple(int(x, 16) for x in case['end']),
